@@ -15,6 +15,10 @@ import (
 
 func init() { modes["dyn"] = runDyn }
 
+// suspend limit of dyn-mode nodes: well above what runs with a quorum reach,
+// reached in the no-quorum tail of a trace
+const dynSuspendLimit = 40
+
 type pendingOp struct {
 	kind   string // join | leave
 	n      *NNode
@@ -175,7 +179,7 @@ func runDyn(o *Opts) *Summary {
 			gen = append(gen, i)
 		}
 		for _, k := range gen {
-			n := vn.NewNode(w.parts[k-1], gen, gen, NodeOpts{Store: o.Store, Cache: o.Cache, Dir: o.Dir, SyncLimit: 40})
+			n := vn.NewNode(w.parts[k-1], gen, gen, NodeOpts{Store: o.Store, Cache: o.Cache, Dir: o.Dir, SyncLimit: 40, SuspendLimit: dynSuspendLimit})
 			n.node.Init()
 		}
 		vn.EmitInit(map[string]interface{}{"sched": "dyn", "seed": o.Seed*1000 + int64(t), "nc": 12})
@@ -231,7 +235,7 @@ func runDyn(o *Opts) *Summary {
 						via := validators[w.rng.Intn(len(validators))]
 						accept := w.rng.Intn(5) > 0 || growth
 						fsync := o.Arg == "fastsync" && w.rng.Intn(3) > 0
-						j := vn.NewNode(p, gen, []int{via.num}, NodeOpts{Store: "inmem", Cache: o.Cache, SyncLimit: 40, FastSync: fsync})
+						j := vn.NewNode(p, gen, []int{via.num}, NodeOpts{Store: "inmem", Cache: o.Cache, SyncLimit: 40, FastSync: fsync, SuspendLimit: dynSuspendLimit})
 						j.node.Init()
 						vn.emitNodeUp(j, "join")
 						ops = append(ops, vn.startJoin(j, via, accept))
@@ -377,11 +381,17 @@ func runDyn(o *Opts) *Summary {
 					}
 				}
 			}
-			// heartbeat duties: a removed node suspends itself
+			// heartbeat duties: a removed node, or one with too many undetermined
+			// events, suspends itself
 			for _, n := range active {
 				if n.State() == "Babbling" {
 					before := n.State()
+					undet := len(n.core.Hg().UndeterminedEvents)
 					n.node.VCheckSuspend()
+					w.Emit(n.num, "Heartbeat", map[string]interface{}{"undet": undet, "initial": n.node.VInitialUndeterminedEvents(),
+						"limit": dynSuspendLimit, "nvals": n.core.Validators().Len(), "removedRound": n.core.RemovedRound(),
+						"acceptedRound": n.core.AcceptedRound(), "lcr": n.node.GetLastConsensusRoundIndex(), "has_lcr": n.core.Hg().LastConsensusRound != nil},
+						map[string]interface{}{"before": before, "after": n.State()})
 					if n.State() != before {
 						w.Emit(n.num, "StateChange", map[string]interface{}{"from": before, "to": n.State(), "why": "checkSuspend"},
 							map[string]interface{}{"removedRound": n.core.RemovedRound(), "lcr": n.node.GetLastConsensusRoundIndex()})
@@ -407,6 +417,37 @@ func runDyn(o *Opts) *Summary {
 				vn.Gossip(a, b, false)
 			}
 			ops = vn.poll(ops)
+		}
+		// no-quorum tail: fewer than a super-majority of the current validators keep
+		// gossiping; undetermined events pile up until the nodes suspend themselves
+		if len(ops) == 0 && t%2 == 0 {
+			bab := []*NNode{}
+			for _, n := range active {
+				if n.State() == "Babbling" && n.core.Validators().ByID[n.part.ID] != nil {
+					bab = append(bab, n)
+				}
+			}
+			if len(bab) >= 3 {
+				nv := bab[0].core.Validators().Len()
+				few := bab[:minInt(len(bab), (2*nv)/3)]
+				for k := 0; len(few) >= 2 && k < 40+dynSuspendLimit*nv*4; k++ {
+					a := few[w.rng.Intn(len(few))]
+					b := few[w.rng.Intn(len(few))]
+					if a == b || a.State() != "Babbling" || b.State() != "Babbling" {
+						continue
+					}
+					vn.Gossip(a, b, false)
+					for _, n := range []*NNode{a, b} {
+						before := n.State()
+						undet := len(n.core.Hg().UndeterminedEvents)
+						n.node.VCheckSuspend()
+						w.Emit(n.num, "Heartbeat", map[string]interface{}{"undet": undet, "initial": n.node.VInitialUndeterminedEvents(),
+							"limit": dynSuspendLimit, "nvals": n.core.Validators().Len(), "removedRound": n.core.RemovedRound(),
+							"acceptedRound": n.core.AcceptedRound(), "lcr": n.node.GetLastConsensusRoundIndex(), "has_lcr": n.core.Hg().LastConsensusRound != nil},
+							map[string]interface{}{"before": before, "after": n.State()})
+					}
+				}
+			}
 		}
 		s.Steps += vn.steps
 		s.Events += len(w.events)
